@@ -240,3 +240,44 @@ def c19_cross_phase(prop, tier, seed, digests, jobs, hashseeds=("1", "987654321"
             if int(k) in digests and digests[int(k)] != d:
                 bad.append((int(k), hs, d, digests[int(k)]))
     return bad, n
+
+
+def c19_find_prefix(prop, tier, seed, idx, back=6):
+    """A digest of the batch differs from the one a fresh interpreter computes for the same case, and the case alone does not show
+    it: then state leaks from the models the batch worker ran before.  Look for a short list of predecessor cases that, run first
+    in one fresh interpreter, change the digest of case `idx`.  Returns (case, prefix_cases) or None."""
+    import tempfile
+    from . import gen_b
+    from .rng import rng_for
+
+    def mk(i):
+        c = gen_b.make_case(prop, rng_for(seed, tier, prop, "B", i), tier, {"c19": True})
+        c["seed"], c["run"] = seed, i
+        return c
+
+    def dig(case, prefix):
+        fd, path = tempfile.mkstemp(suffix=".json", dir="/dev/shm" if os.path.isdir("/dev/shm") else None)
+        try:
+            with os.fdopen(fd, "w") as f:
+                json.dump(dict(case, prefix_cases=prefix), f)
+            env = dict(os.environ)
+            env["PYTHONHASHSEED"] = "0"
+            p = subprocess.run([sys.executable, os.path.join(fsim.VERIF, "tools", "c19_worker.py"), "--case", path], capture_output=True, text=True, timeout=300, env=env)
+            if p.returncode != 0:
+                raise RuntimeError("c19 worker failed: " + p.stderr[-400:])
+            return next(l for l in p.stdout.splitlines() if l.startswith("DIGEST "))[7:]
+        finally:
+            os.unlink(path)
+
+    case = mk(idx)
+    alone = dig(case, [])
+    prev = [mk(i) for i in range(max(0, idx - back), idx)]
+    cands = [[c] for c in reversed(prev)] + [[c, c] for c in reversed(prev)]
+    acc = []
+    for c in reversed(prev):
+        acc = [c, c] + acc              # the batch worker runs every case twice (in-process rerun) before the next one
+        cands.append(list(acc))
+    for pre in cands:
+        if dig(case, pre) != alone:
+            return case, pre
+    return None
